@@ -1,6 +1,7 @@
 import MesonModel.Quote.Model
 import MesonModel.Quote.Env
 import MesonModel.Quote.Gen
+import MesonModel.Quote.AddArgs
 import Driver.Proto
 /-
 Driver commands of area `quote` (property C03).
@@ -234,6 +235,9 @@ def handle (cmd : String) (fs : List String) : String :=
                            sourceTargetDir := decodeStr std } (decList arglist) (decList extra) with
     | .ok l => "ok:" ++ encList l
     | .error e => showGenErr e
+  | "addargs", [langs, batches, l] =>
+    -- history: `;`-separated language lists and (parallel) argument batches; answer: the list stored for `l`
+    encList (argsGet (addHistory [] ((decListList langs).zip (decListList batches))) (decodeStr l))
   | "nshesc", [s] => encodeStr (ninjaShellEscape (decodeStr s))
   | _, _ => "bad-op"
 
